@@ -414,9 +414,34 @@ func (c *Check) clientContextRecovery(rule string) {
 			}
 			n++
 			okList := false
-			if call, ok := ast.Unparen(ix.X).(*ast.CallExpr); ok {
-				if callee := typeutil.Callee(info, call); callee != nil && callee.Name() == "GetMsgs" {
-					okList = true
+			isGetMsgs := func(e ast.Expr) bool {
+				if call, ok := ast.Unparen(e).(*ast.CallExpr); ok {
+					if callee := typeutil.Callee(info, call); callee != nil && callee.Name() == "GetMsgs" {
+						return true
+					}
+				}
+				return false
+			}
+			if isGetMsgs(ix.X) {
+				okList = true
+			} else if id, ok := ast.Unparen(ix.X).(*ast.Ident); ok {
+				// a local that is assigned exactly once, from GetMsgs()
+				if v, _ := info.Uses[id].(*types.Var); v != nil {
+					nAssign, fromGet := 0, false
+					ast.Inspect(f.Body, func(m ast.Node) bool {
+						if as, ok := m.(*ast.AssignStmt); ok && len(as.Lhs) == len(as.Rhs) {
+							for i, l := range as.Lhs {
+								if lid, ok := l.(*ast.Ident); ok && (info.Defs[lid] == types.Object(v) || info.Uses[lid] == types.Object(v)) {
+									nAssign++
+									if isGetMsgs(as.Rhs[i]) {
+										fromGet = true
+									}
+								}
+							}
+						}
+						return true
+					})
+					okList = nAssign == 1 && fromGet
 				}
 			}
 			c.req(okList, rule, unitConstruct(f, "message-index-into-tx-messages"), ix.Pos(),
